@@ -12,6 +12,9 @@ def run(ctx):
     from vf.pyvc import crosscheck_sym
 
     crosscheck_sym.guard(ctx)  # the symbolic-shape tensor layer against real torch, before the clauses that rest on it
+    from contracts import C07_loop
+
+    api.run_vcs(ctx, C07_loop.loop_p_vcs(ctx), {"C07.P.walk_loop": "real RandomWalk.forward source, end-of-sequence set or unset, SYMBOLIC batch size, vocabulary and step limit, ANY language model, random_walk_advance under its proved contract: loop invariant - end flag, length and score of every element are those of the recorded walk (score = sum of the model's normalised scores of its own labels up to and including the first eos); exits only at the step limit or when every element has ended: every path ends at its FIRST eos or at the limit; the model is asked about exactly the paths so far with the current state"})
     api.run_vcs(ctx, C07_vc.walk_p_vcs(ctx), {"C07.P.walk_step": "real random_walk_advance source (prefix lengths given) for a SYMBOLIC batch size, vocabulary and number of prefix rows, torch.multinomial under contract: the drawn label has a finite step score, is written at the element's length, the score grows by that step score, the path tensor grows exactly when some prefix is full"})
     api.run_vcs(ctx, C07_vc.greedy_p_vcs(ctx), {"C07.P.greedy": "real ctc_greedy_search source (log domain, lengths given) for a SYMBOLIC batch size, number of frames, vocabulary and blank index, both layouts: the frame label has maximal normalised score, the path keeps - in order - exactly the frames inside the length whose label is neither blank nor a repeat of the previous frame's, the reported length is their number, the score is the sum of the frame maxima inside the length"})
     api.run_vcs(ctx, C07_vc.p_vcs(ctx), {"C07.P.slp_summand": "real sequence_log_probs (tensor input) source for SYMBOLIC sequence length, batch size and vocabulary: the result is the sum over the sequence of log_softmax(logits)[t, b, hyp[t, b]] for in-vocabulary tokens up to and including the first eos, 0 elsewhere"})
